@@ -29,6 +29,7 @@ def check(run: Run) -> None:
     run.rule("C03.R4", "bracket counters paired per bracket kind; stop only at depth zero; comments skipped")
     run.rule("C03.R5", "def path re-parses inspect.getsource(callable)")
     run.rule("C03.R6", "same-line scan stops at tokenize.NEWLINE only")
+    run.rule("C03.R7", "a `def` token is searched for only when the callable handed in is not a lambda (callable.__name__ != '<lambda>')")
     ctx = TermCtx(m, max_depth=1, opaque={"rewrite_func_as_lambda", "_get_lambda_in_stream", "_realign_indent", "_get_sourcelines"})
     ps = m.find_func("_parse_source_for_lambda", in_module=mod)
     fa = ctx.analysis(ps)
@@ -230,15 +231,109 @@ def check(run: Run) -> None:
             if isinstance(c.func, ast.Attribute) and c.func.attr == "find_identifier" and c.args:
                 n_fi_calls += 1
                 a0 = c.args[0]
-                ok = isinstance(a0, (ast.List, ast.Tuple, ast.Set)) and all(isinstance(e, ast.Constant) and isinstance(e.value, str) for e in a0.elts)
+                alts0 = _literal_alternatives(a0, f_)
+                ok = bool(alts0) and all(isinstance(x, (ast.List, ast.Tuple, ast.Set)) and all(isinstance(e, ast.Constant) and isinstance(e.value, str) for e in x.elts) for x in alts0)
                 run.check(ok, "C03.R6", f_, stmt_of(c), "find_identifier receives a list of identifier strings", f"find_identifier is called with {ast.unparse(a0)}, not a list of identifiers: with a bare string the membership test becomes a substring test, so short names such as 'a' or 'b' are taken for the start of a lambda and the real lambda is filed under the wrong caller", '["lambda"]')
     run.floor("C03.R6", n_fi_calls, 2, "find_identifier call sites")
+    # ---------------- R7: which keyword starts the function is decided by the kind of callable handed in
+    _check_kind(run, m, ctx, ps, srcp)
     # name match: returns (previous NAME token, this token) when t.string in identifier
     for s, n in ffa.returns():
         if _returns_found(s):
             fx = Facts(ffa, s)
             ok = any(pol and isinstance(a, ast.Compare) and isinstance(a.ops[0], ast.In) and "string" in ast.unparse(a.left) for a, pol in fx.atoms) and any(pol and "NAME" in ast.unparse(a) for a, pol in fx.atoms)
             run.check(ok, "C03.R6", fi_, s, "identifier found iff a NAME token whose string is in the list", "find_identifier's match condition is not 'NAME token whose string is one of the identifiers'")
+
+
+def _literal_alternatives(e: ast.AST, f_=None, _depth: int = 0):
+    """the literals an argument expression can evaluate to: a literal, a conditional expression of literals, or a
+    local name whose every assignment in the function is one of those."""
+    if isinstance(e, ast.IfExp):
+        return _literal_alternatives(e.body, f_, _depth) + _literal_alternatives(e.orelse, f_, _depth)
+    if isinstance(e, ast.Name) and f_ is not None and _depth < 3:
+        defs = [n for n in own_nodes(f_) if isinstance(n, ast.Assign) and any(isinstance(t, ast.Name) and t.id == e.id for t in n.targets)]
+        others = [n for n in own_nodes(f_) if isinstance(n, ast.Name) and n.id == e.id and isinstance(n.ctx, ast.Store)]
+        if defs and len(others) == sum(1 for d in defs for t in d.targets if isinstance(t, ast.Name) and t.id == e.id):
+            out = []
+            for d in defs:
+                out += _literal_alternatives(d.value, f_, _depth + 1)
+            return out
+    return [e]
+
+
+def _lambda_test(e: ast.AST, src: str):
+    """True when e reads "the callable is a lambda", False when it reads "is not a lambda", None otherwise."""
+    if isinstance(e, ast.UnaryOp) and isinstance(e.op, ast.Not):
+        r = _lambda_test(e.operand, src)
+        return None if r is None else not r
+    if isinstance(e, ast.Compare) and len(e.ops) == 1 and isinstance(e.ops[0], (ast.Eq, ast.NotEq)):
+        sides = [e.left, e.comparators[0]]
+        const = [x for x in sides if isinstance(x, ast.Constant) and x.value == "<lambda>"]
+        other = [x for x in sides if not (isinstance(x, ast.Constant) and x.value == "<lambda>")]
+        if len(const) == 1 and len(other) == 1:
+            o = other[0]
+            name_of = (isinstance(o, ast.Attribute) and o.attr == "__name__" and isinstance(o.value, ast.Name) and o.value.id == src) or (
+                isinstance(o, ast.Call) and isinstance(o.func, ast.Name) and o.func.id == "getattr" and len(o.args) >= 2 and isinstance(o.args[0], ast.Name) and o.args[0].id == src and isinstance(o.args[1], ast.Constant) and o.args[1].value == "__name__"
+            )
+            if name_of:
+                return isinstance(e.ops[0], ast.Eq)
+    return None
+
+
+def _check_kind(run: Run, m, ctx, ps, srcp) -> None:
+    """R7. A lambda written on the line of a one-line `def` (def make(): return ds.Select(lambda x: ..)) or after a
+    decorator is not that def: the keyword list handed to the token search may contain 'def' only where the
+    callable is known not to be a lambda. Decided where the list literal is written: the facts holding there
+    (enclosing if / conditional expression, flag variables expanded to their definitions)."""
+    from ..lib import unit
+
+    src = srcp[1]
+    fa = ctx.analysis(ps)
+    lits = []
+    for f_ in unit(m, ps):
+        for n in own_nodes(f_):
+            if isinstance(n, (ast.List, ast.Tuple, ast.Set)) and isinstance(getattr(n, "ctx", ast.Load()), ast.Load) and any(isinstance(e, ast.Constant) and e.value == "def" for e in n.elts):
+                lits.append((f_, n))
+    # does the scan tell the two kinds of callable apart anywhere?
+    distinguishes = any(_lambda_test(n, src) is not None for f_ in unit(m, ps) for n in own_nodes(f_) if isinstance(n, (ast.Compare, ast.UnaryOp)))
+    n_seen = 0
+    for f_, lit in lits:
+        if f_ is not ps:
+            raise AnalysisError(f"keyword list with 'def' is built in helper {f_.name}: cannot relate it to the callable")
+        n_seen += 1
+        atoms = list(Facts(fa, lit).atoms)
+        # a conditional expression around the literal contributes its own test
+        from ..model import ancestors as _anc
+
+        child = lit
+        for a in _anc(lit):
+            if isinstance(a, ast.IfExp) and child is not a.test:
+                atoms.append((a.test, child is a.body))
+            if isinstance(a, ast.stmt):
+                break
+            child = a
+        from ..lib import expand_atoms
+
+        atoms = expand_atoms(fa, atoms)
+        verdicts = []
+        for a, pol in atoms:
+            r = _lambda_test(a, src)
+            if r is not None:
+                verdicts.append(r == pol)  # True: "is a lambda" holds here
+        not_lambda = any(v is False for v in verdicts)
+        if not not_lambda and distinguishes:
+            raise AnalysisError("the scan tests callable.__name__ against '<lambda>' but not where the keyword list with 'def' is chosen: cannot decide which callables are searched for a def")
+        run.check(
+            not_lambda,
+            "C03.R7",
+            ps,
+            stmt_of(lit),
+            "'def' is a start keyword only for callables that are not lambdas",
+            f"the token search looks for {ast.unparse(lit)} whatever the callable is: for a lambda written on the line of a one-line def (def make(): return ds.Select(lambda x: x + 1)) or after a decorator the `def` is found first and the enclosing function is rewritten and recorded instead of the lambda - silently",
+            '["lambda"] if callable.__name__ == "<lambda>" else ["def"]',
+            key="def searched for a lambda callable",
+        )
+    run.floor("C03.R7", n_seen, 1, "keyword lists containing 'def'")
 
 
 def _returns_found(r: ast.Return) -> bool:
